@@ -2680,14 +2680,30 @@ func checkKeyedAddressRegisteredBeforeHandOut(c *Ctx, rule string) {
 				continue
 			}
 			n++
-			inCache := func(ins ssa.Instruction) bool {
-				mu, ok := ins.(*ssa.MapUpdate)
-				if !ok {
+			var inCacheD func(ins ssa.Instruction, depth int) bool
+			inCacheD = func(ins ssa.Instruction, depth int) bool {
+				if mu, ok := ins.(*ssa.MapUpdate); ok {
+					_, f, _, okf := fieldOf(stripConv(mu.Map))
+					return okf && f == "addrs"
+				}
+				// a helper of the package that inserts on every path to its return (synchronously: a plain call)
+				hc, ok := ins.(*ssa.Call)
+				if !ok || depth > 2 {
 					return false
 				}
-				_, f, _, okf := fieldOf(stripConv(mu.Map))
-				return okf && f == "addrs"
+				h := hc.Call.StaticCallee()
+				if h == nil || h.Pkg == nil || h.Pkg != fn.Pkg || len(h.Blocks) == 0 {
+					return false
+				}
+				q := &PathQuery{Fn: h,
+					Barrier: func(i ssa.Instruction) bool { return inCacheD(i, depth+1) },
+					Target: func(i ssa.Instruction, _ *ssa.BasicBlock) bool {
+						_, isRet := i.(*ssa.Return)
+						return isRet
+					}}
+				return len(q.From(nil)) == 0
 			}
+			inCache := func(ins ssa.Instruction) bool { return inCacheD(ins, 0) }
 			bad := p.mustPassToSuccess(fn, call, inCache, nil)
 			c.Check(rule, "keyed-address-registered-before-hand-out:"+fn.Name(), call.Pos(), bad == nil,
 				fnName(fn)+" can hand out an address object that holds a private key without having put it into the address cache itself (the insertion is conditional or deferred to a commit hook): after a rolled-back transaction the caller holds an object no Lock() will ever wipe")
